@@ -52,12 +52,32 @@ class StubFuture:
         self.log.append(("EXC", self.idx, exc))
 
 
+class StubOwner:
+    def __init__(self):
+        self.events = []
+
+    def event_received(self, parsed):
+        self.events.append(parsed)
+
+
 class StubConnection:
     def __init__(self, log):
         self.log = log
 
     def event_received(self, resp):
         self.log.append(("EVENT", None, resp))
+        # what the real connection does with a parsed EVENT (JSON-decode the body, hand it to the pairing); an undecodable
+        # body is dropped there - an exception escaping from it would abort the read that carried the event, and with it
+        # every message behind it in the same read (bodies that are not UTF-8 are not passed on: out of scope here)
+        try:
+            resp.body.decode("utf-8")
+        except UnicodeDecodeError:
+            return
+        from aiohomekit.controller.ip.connection import HomeKitConnection
+
+        if not hasattr(self, "owner"):
+            self.owner = StubOwner()
+        HomeKitConnection.event_received(self, resp)
 
     def _connection_lost(self, exc):
         self.log.append(("LOST", None, exc))
